@@ -102,6 +102,13 @@ var c14Codec = probe.Define("C14", "codec", func(t *rapid.T) c14In {
 			if uint8(got.GetAttrType()) != s.Type {
 				return probe.Fail("GetAttr(%d) returned an attribute of type %d", s.Type, got.GetAttrType())
 			}
+			// the caller's buffer is the caller's: reusing it afterwards does not change the value that was set
+			for i := range v {
+				v[i] = ^v[i]
+			}
+			if got2, err := ak.GetAttr(eap.EapAkaPrimeAttrType(s.Type)); err != nil || !bytes.Equal(got2.GetValue(), s.Value) {
+				return probe.Fail("attribute %d: the value read back changed when the caller reused the buffer it had passed to SetAttr (the packet keeps a reference to the caller's memory)", s.Type)
+			}
 			// encoding the packet while it is being put together must leave nothing behind
 			var before []byte
 			if err := probe.Try(func() error { var e error; before, e = ak.Marshal(); return e }); err != nil {
